@@ -12,6 +12,9 @@ func verifYield(string) {}
 // verifCtxPool is the type of Router.ctxPool: plainly sync.Pool in the normal build.
 type verifCtxPool = sync.Pool
 
+// verifRWMutex is the type of the route cache's lock: plainly sync.RWMutex in the normal build.
+type verifRWMutex = sync.RWMutex
+
 func verifOrder(_ string, items []string) []string { return items }
 
 func verifActionBatches(m map[string][]string) []map[string][]string {
